@@ -21,6 +21,7 @@ let ent l =
     | Some (a, b) -> Some (n_of_int a, n_of_int b) | None -> None
 let c1 n = let i = int_of_n n - 0x80 in
   if i >= 0 && i < 32 && c1_tbl.(i) >= 0 then Some (n_of_int c1_tbl.(i)) else None
+let use_flat = Array.exists (fun a -> a = "flat") Sys.argv
 let use_golden = Array.exists (fun a -> a = "golden") Sys.argv
 let show_cons = ref (Array.exists (fun a -> a = "cons") Sys.argv)
 let cps s = List.map n_of_int (ints (words s))
@@ -76,14 +77,24 @@ let () =
         let (toks, log) =
           if fl = "h" then begin
             let s0 = lookup_state html_state_names (String.trim st) in
+            if use_flat then begin
+              let m0 = { mc = init_cfg s0 last ex bom; mq = []; mout = []; mcons = N0 } in
+              let (m, log) = drive_flat html_flavour html_table simd ent c1 sk fuel inject chunks m0 [] in
+              (List.rev m.mout, List.rev log)
+            end else begin
             let m0 = { mc = init_cfg s0 last ex bom; mq = []; mout = []; mcons = N0 } in
-            let (m, log) = drive html_flavour (if use_golden then g_html_table else html_table) simd ent c1 sk fuel inject chunks m0 [] in
-            (List.rev m.mout, List.rev log)
+            let (m, log) = drive_chunked html_flavour (if use_golden then g_html_table else html_table) simd ent c1 sk fuel inject chunks m0 [] in
+            (List.rev m.mout, List.rev log) end
           end else begin
             let s0 = lookup_state xml_state_names (String.trim st) in
+            if use_flat then begin
+              let m0 = { mc = init_cfg s0 last ex bom; mq = []; mout = []; mcons = N0 } in
+              let (m, log) = drive_flat xml_flavour xml_table simd ent c1 sk fuel inject chunks m0 [] in
+              (List.rev m.mout, List.rev log)
+            end else begin
             let m0 = { mc = init_cfg s0 last ex bom; mq = []; mout = []; mcons = N0 } in
-            let (m, log) = drive xml_flavour (if use_golden then g_xml_table else xml_table) simd ent c1 sk fuel inject chunks m0 [] in
-            (List.rev m.mout, List.rev log)
+            let (m, log) = drive_chunked xml_flavour (if use_golden then g_xml_table else xml_table) simd ent c1 sk fuel inject chunks m0 [] in
+            (List.rev m.mout, List.rev log) end
           end in
         print_string (String.concat " ; " (List.map show_token toks));
         print_string " # ";
